@@ -286,7 +286,7 @@ PROPS = {
     "C17": {
         "title": "Disconnects and bans are enforced at the door",
         "level": "exploration",
-        "rule": "rapid state machine in fake time: connect (handshake + login pipelined in one write) from one of 7 addresses incl. near-misses "
+        "rule": "rapid state machine in fake time: connect (handshake + login pipelined in one write; 1.2.3 flow, or 1.5 flow agreeing with or without a name field) from one of 7 addresses incl. near-misses "
                 "(10.0.0.2 / 10.0.0.20 / 110.0.0.2 / 10.0.0.200), administrator kick with option none / temporary / permanent, advance the fake "
                 "clock by {999 ms, 1 s, 61 s, 29 min, 29 min 58 s, 2 h}, direct ban-list add with expiry now + {-1 h, -1 s, -1 ns, 0, +1 ns, +1 s, "
                 "+3 s, +30 min} or permanent, restart (fresh stores and server from the files); model = map address -> permanent | expiry, "
